@@ -1,9 +1,11 @@
 (* extraction of the executable C19 model (PrimFloat -> OCaml floats, Uint63 -> OCaml ints via coq-core.kernel);
-   extension: the parameter table regenerated from the source (object_table / param_table; Coq strings -> char lists) *)
+   extension: the parameter table regenerated from the source (object_table / param_table; Coq strings -> char lists);
+   third extension: the clone table (clone_table / class_table) and the table-driven clone of objects (src_oclone) *)
 From Coq Require Import List ZArith Floats Extraction ExtrOcamlBasic ExtrOcamlString ExtrOCamlFloats ExtrOCamlInt63.
-From LN Require Import C19_Defs C19_FactoryDefs.
+From LN Require Import C19_Defs C19_FactoryDefs C19_ClonesDefs.
 Extraction Language OCaml.
 Extraction "extracted/c19_model.ml" make step after run read_i64 read_f64 read_ip read_fp read_str read_enum
   natural_read convert domain_of stoll split_pair tokens f2i i2f trunc_f conv_i make_integer_d encode decode
   cregister cassign cread cstep crun cfound sclone sstep srun str_eqb
-  object_table object_ops_table param_table use_table cbuild.
+  object_table object_ops_table param_table use_table cbuild
+  clone_table class_table src_oclone src_shaped default_obj.
